@@ -40,12 +40,15 @@ RULE = ("every MapSpec structure with <=2 inputs of rank<=3 (plus 3 inputs of to
         "<=6), <=4 index names (canonical by first appearance in the inputs; every injective renaming into i,j,k,l is "
         "covered by a separate stage), ':' at any input axis, output = every permutation of the used indices with <=1 extra "
         "internal index at every position (1 or 2 internal indices for the '...' form), 1 or 2 outputs, three name styles "
-        "(plain, scoped, mixed); per structure: 9 white-space renderings + 3 unusual ones, every single-edit mutation of a "
-        "fixed operator list (string and direct construction), every tuple of input shapes with sizes 1..3 (thorough 1..4) "
-        "incl. mismatching ones and one-axis rank edits, every size assignment x every linear index, renames of every "
-        "non-empty subset of array names, add_axes with 1-2 fresh names. An evaluation is one call (or one "
-        "output_key+input_keys pair at one linear index) compared with the reference. non-trivial = distinct spec "
-        "(structure incl. names) with >=2 distinct index names or a ':'")
+        "(plain, scoped, mixed); per structure: 9 white-space renderings + 3 unusual ones; every single-edit mutation of a "
+        "fixed operator list, as a string and by direct construction (quick: structures with <=5 input axes; thorough: also the "
+        "two-input structures with 6); every tuple of input shapes with sizes 1..3 (quick: 1..2 for two outputs or 6 input "
+        "axes; thorough: 1..4 for <=2 inputs, one less for two outputs) incl. mismatching ones, plus one-axis rank edits; every "
+        "assignment of those sizes to the external indices x every linear index; renames of every non-empty subset of array "
+        "names (+ swap, identity, unrelated and index-name keys); add_axes with 1-2 fresh names; every other injective naming of "
+        "the indices into i,j,k,l on one generic size assignment. An evaluation is one call (or one output_key+input_keys pair "
+        "at one linear index) compared with the reference. non-trivial = distinct spec (structure incl. array and index names) "
+        "with >=2 distinct index names or a ':'")
 ASSUMPTIONS = ["the reference grammar: spec := side '->' side; side := '...' | array (',' array)*; array := name '[' axis (',' axis)* ']'; "
                "a name is ident or ident.ident; an axis is ident or ':'",
                "a rejection may be any Exception subclass (the statement fixes no type)",
@@ -792,8 +795,8 @@ def run_unit(unit):  # noqa: C901, PLR0912, PLR0915
                         acc.stratum(f"spec:rank-out={len(oax)}")
                         acc.stratum("ws-variants", len(WS_MUST))
             elif stage == "malformed":
-                if tier == "quick" and total_rank > 5:
-                    acc.stratum("malformed:skipped-in-quick(6-input-axes)")
+                if total_rank > 5 and (tier == "quick" or len(ins) == 3):
+                    acc.stratum("malformed:not-in-this-tier(6-input-axes)")
                     continue
                 for n_out in (1, 2):
                     for style in (0, 2):
@@ -870,8 +873,24 @@ def run_unit(unit):  # noqa: C901, PLR0912, PLR0915
                     acc.case(spec_key(s2) if nontrivial(s2) else None, n=ev)
                     acc.stratum("index-naming")
                     report({"op": "index-naming", "spec": s2}, vs)
-        if len(acc.samples) < 2:
-            acc.sample({"op": stage, "spec": make_spec(ins, menu[-1], 2, 2)})
+    if mine:
+        ins = mine[len(mine) // 2]
+        spec = make_spec(ins, out_axes_menu(ins)[-1], 2 if stage in ("print-parse", "malformed") else 1, 2 if stage == "print-parse" else 0)
+        p = prep(spec)
+        if stage == "print-parse":
+            acc.sample({"op": "print-parse", "spec": spec, "strings": [render(spec, ws) for ws in ("canon", "none", "inside-brackets")]})
+        elif stage == "malformed":
+            mut, mop, extras = mutations(spec)[len(spec["outs"][0][1])]
+            acc.sample({"op": "malformed", "mutant": mut, "via": "string", "mop": mop, "extras": extras, "string": render(mut)})
+        elif stage == "shape":
+            acc.sample({"op": "shape", "spec": spec, "shapes": {n: [1 + (k + q) % 3 for q in range(len(ax))] for k, (n, ax) in enumerate(spec["ins"])},
+                        "internal": [2] * len(p["internal"]) or None})
+        elif stage == "keys":
+            acc.sample({"op": "keys", "spec": spec, "ext_shape": [2 + q % 2 for q in range(len(p["ext"]))]})
+        elif stage == "rename-add_axes":
+            acc.sample({"op": "rename", "spec": spec, "renames": rename_menu(spec)[-4][0], "sweep": True})
+        else:
+            acc.sample({"op": "index-naming", "spec": apply_naming(spec, dict(zip(NAMES, NAMES[::-1])))})
     return acc
 
 
